@@ -37,6 +37,8 @@ type App struct {
 	ReadBuf int      // size of the buffer passed to Read (default 4096)
 	Expect  int      // stop reading after this many bytes (0 = read until error/EOF)
 	NoClose bool
+	// CloseWriteAfterWrites: call CloseWrite (send close_notify, keep reading) after the writes
+	CloseWriteAfterWrites bool
 }
 
 type conn interface {
@@ -52,6 +54,11 @@ func runApp(c conn, v *View, a App) {
 		v.WriteErrs = append(v.WriteErrs, err)
 		if err != nil {
 			break
+		}
+	}
+	if a.CloseWriteAfterWrites {
+		if cw, ok := c.(interface{ CloseWrite() error }); ok {
+			v.WriteErrs = append(v.WriteErrs, cw.CloseWrite())
 		}
 	}
 	bs := a.ReadBuf
